@@ -28,6 +28,21 @@ func numberMagnitude(d decimal.Decimal) int {
 	return d.NumDigits() + exp
 }
 
+// canonical returns the number in the one form that doesn't depend on how it was written or calculated: a whole
+// number has no exponent, any other number has no trailing zeros after its decimal point. 0.10 and 0.1, 1E3 and 1000
+// are equal numbers and have to be treated equally by the limits below.
+func canonical(d decimal.Decimal) decimal.Decimal {
+	if d.Exponent() == 0 {
+		return d
+	}
+	if d.Exponent() < 0 && new(big.Int).Rem(d.Coefficient(), big.NewInt(10)).Sign() != 0 {
+		return d
+	}
+
+	// the text form is the canonical one: whole numbers are written in full, others without trailing zeros
+	return decimal.RequireFromString(d.String())
+}
+
 func exponentOutOfRange(exp *big.Int) bool {
 	return !exp.IsInt64() || exp.Int64() < -maxNumberExponent || exp.Int64() > maxNumberExponent
 }
@@ -103,12 +118,14 @@ var Subtract = numericalBinary(func(env envs.Environment, num1 *types.XNumber, n
 //
 // @operator multiply "*"
 var Multiply = numericalBinary(func(env envs.Environment, num1 *types.XNumber, num2 *types.XNumber) types.XValue {
+	factor1, factor2 := canonical(num1.Native()), canonical(num2.Native())
+
 	// multiplying adds the decimal exponents
-	if exponentOutOfRange(big.NewInt(int64(num1.Native().Exponent()) + int64(num2.Native().Exponent()))) {
+	if exponentOutOfRange(big.NewInt(int64(factor1.Exponent()) + int64(factor2.Exponent()))) {
 		return types.NewXErrorf("number value out of range")
 	}
 
-	return types.NewXNumber(num1.Native().Mul(num2.Native()))
+	return types.NewXNumber(factor1.Mul(factor2))
 })
 
 // Divide divides a number by another.
@@ -133,7 +150,7 @@ var Divide = numericalBinary(func(env envs.Environment, num1 *types.XNumber, num
 //
 // @operator exponent "^"
 var Exponent = numericalBinary(func(env envs.Environment, num1 *types.XNumber, num2 *types.XNumber) types.XValue {
-	base, power := num1.Native(), num2.Native()
+	base, power := canonical(num1.Native()), canonical(num2.Native())
 
 	// raising to an integral power multiplies the decimal exponent of the base by that power, e.g. 0.001 ^ 999999999
 	if exponentOutOfRange(new(big.Int).Mul(big.NewInt(int64(base.Exponent())), power.BigInt())) {
